@@ -12,7 +12,7 @@ import gram
 from impl import trees, treeinput, treeoutput, grammar, treeanalysis, quiet, clone
 
 ID = "C18"
-MODULE = ['TT.Props.C18', 'TT.Props.C18More', 'TT.Props.C18Run', 'TT.Props.C18Local', 'TT.Props.C18Local2', 'TT.Props.C18Src']
+MODULE = ['TT.Props.C18', 'TT.Props.C18More', 'TT.Props.C18Run', 'TT.Props.C18Local', 'TT.Props.C18Local2', 'TT.Props.C18Src', 'TT.Props.C18Dir', 'TT.Props.C18Ids', 'TT.Props.C18Sum']
 RULE = ("(a) histories of 3..7 calls in one process (readers, writers, transformations incl. substitute/insert with two "
         "differently named terminal files, one of them with a duplicate index, grammar extraction/binarization/writing "
         "incl. lex_in_grammar written twice) each compared with the same call in a fresh process, under PYTHONHASHSEED "
@@ -569,6 +569,18 @@ def long_process_case(rng):
 
 def gen(seed, tier, scale):
     idx = 0
+    # wave 19: one process works through a DIRECTORY of several files (plain / gzip, different sizes): what is written for
+    # a file is what the single-file command writes (TT.runDirCmd; Props/C18Dir.lean)
+    import dircases
+    rngs = [case_rng(seed, ID, 830000 + i) for i in range((12 if tier == "quick" else 200) * scale)]
+    for i, c in enumerate(cli.pmap(dircases.dir_case, rngs)):
+        yield 830000 + i, c
+    # wave 19: the node-id model (TT/ProcIds.lean `stamp`, `runHistoryX`; `historyX_independent`) against `Tree.newid` in ONE
+    # process over a history of reader calls: id blocks per sentence and the final counter for every reader, exact ids for
+    # the bracket readers (which create nodes parents first in text order, as `stamp` does)
+    import idcases
+    for j, c in enumerate(idcases.id_cases(case_rng(seed, ID, 840000), (20 if tier == "quick" else 300) * scale)):
+        yield 840000 + j, c
     for i in range((6 if tier == "quick" else 60) * scale):
         yield 810000 + i, interleaved_readers_case(case_rng(seed, ID, 810000 + i))
     for i in range((40 if tier == "quick" else 400) * scale):
